@@ -148,6 +148,31 @@ CLAIMED = {
                 "tested by the explorer (defects D3/D4 found this way were repaired).",
         "design_ref": "DESIGN.md §7 C07, §4.1",
     },
+    "C13": {
+        "text": "Lean 4 theorems: check_requirements exact characterisation and error kinds; shoelace step identity and area-sum theorems "
+                "for the vertex-list computations of fan and ear clipping (every successful run: triangle areas add up to the polygon's; "
+                "every clipped ear has the announced orientation and contains no other vertex: ear test soundness); kernel ties: a "
+                "successful kernel run performed exactly that vertex-list computation; fan: an accepted apex sees every non-incident side "
+                "with one sign (strict except for the first examined side, exactly as the code tests), strictly convex CCW polygons are "
+                "accepted (after repair of D7, commit 00af791). Tie: convex/star/reflex-at-every-index/random simple polygons (4-10 sides, "
+                "both orientations, isolated and embedded) on the real kernels vs the model + exact Python oracle (triangle count, "
+                "orientation, area sum, adjacency, untouched faces, WF).",
+        "note": "Trusted: Lean kernel + 3 standard axioms; hand-written kernel models. NOT proved: ear clipping succeeds on every simple "
+                "polygon in general position (two-ears theorem), WF and exact face structure through the sew loops, unchanged coordinates "
+                "— all evaluated by the oracle on the real implementation.",
+        "design_ref": "DESIGN.md §7 C13",
+    },
+    "C14": {
+        "text": "Lean 4 theorems: insert_vertex_on_edge / insert_vertices_on_edge preserve WF 3 at full strength under the user-side guards "
+                "(after repair of D8), validation errors are returned exactly under the stated conditions and before any write (state "
+                "unchanged: instance of C06), success implies the guards, the i-th new point sits at v1+(v2-v1)*t_i in the slot of the "
+                "vertex id of the i-th new dart (after repair of D11) and lies strictly between the end points in order over Q. Tie: every "
+                "edge of every WF 2-map n<=3 (+k spare darts, k<=3, natural and permuted order), grids, invalid inputs, tx blocks on the "
+                "real kernels vs the model; oracle: chain of k+1 segments on both sides, positions, frame incl. all images of dart 0.",
+        "note": "Trusted: Lean kernel + 3 standard axioms; hand-written kernel model. NOT proved: the exact beta chain/frame statement and "
+                "that the new darts lie in pairwise distinct vertices of the result (oracle only).",
+        "design_ref": "DESIGN.md §7 C14",
+    },
 }
 
 REASONS_NOT_YET = "check not built yet in this round (planned, see DESIGN.md §7); no claim is made"
